@@ -94,7 +94,7 @@ func (e *Engine) buildVCy(key string, con *Contract, excl map[string]bool, force
 		for n := range e.Estable {
 			names[n] = true
 		}
-		names["rdom"], names["udom"] = true, true
+		names["rdom"], names["udom"], names["labelledStack"] = true, true, true
 		for name := range names {
 			mention := func(s string) bool { return strings.Contains(s, name+"(") }
 			for _, cl := range con.Requires {
